@@ -1,5 +1,14 @@
 /-
   C07 — Redis commands and replies are reported exactly, binary-safe.
+
+  Theorems over the reader model (`Redis/Model.lean`; command and keyword tables regenerated)
+  * `c07_readInt_dec` — `readIntCrLf` inverts the decimal encoding over the whole int64 range;
+  * `c07_bulk_binary_safe`, `c07_line_exact` — bulk strings by length, lines up to CR LF;
+  * `c07_process_enc` / `c07_elems_enc` — mutual induction over replies: `process` inverts the
+    reference encoder for every well-formed reply and every continuation;
+  * `c07_server_half`, `c07_client_half` — every pipelined sequence yields one packet per reply /
+    command, in order; none stops the ones after it;
+  * `c07_reply_reported`, `c07_command_reported` — the packet carries what the statement demands.
 -/
 import KsVerif.Redis.Spec
 
@@ -52,5 +61,544 @@ theorem c07_line_exact (s rest : Bytes) (tail : Tail) (h : ∀ b ∈ s, b ≠ CR
 /-- Non-vacuity: a value holding CR LF and a NUL. -/
 example : bulkBody 5 { rem := [97, 13, 10, 0, 98, 13, 10, 43], tail := .eof }
     = .ok ([97, 13, 10, 0, 98], { rem := [43], tail := .eof }) := by rfl
+
+/-! ### integers: `readIntCrLf` inverts the decimal encoding over the whole int64 range -/
+
+theorem wrap64_step (a : Int) (d : Int) : wrap64 (wrap64 a * 10 + d - 48) = wrap64 (a * 10 + d - 48) := by
+  unfold wrap64; omega
+
+theorem wrap64_id (a : Int) (h1 : -9223372036854775808 ≤ a) (h2 : a ≤ 9223372036854775807) : wrap64 a = a := by
+  unfold wrap64; omega
+
+theorem wrap64_neg (a : Int) : wrap64 (-(wrap64 a)) = wrap64 (-a) := by
+  unfold wrap64; omega
+
+/-- the accumulator of the digit loop -/
+def foldDigits (ds : Bytes) (v : Int) : Int := ds.foldl (fun acc b => wrap64 (acc * 10 + b.toNat - 48)) v
+
+/-- the same without wrap-around -/
+def plainDigits (ds : Bytes) (v : Int) : Int := ds.foldl (fun acc b => acc * 10 + b.toNat - 48) v
+
+theorem foldDigits_wrap (ds : Bytes) : ∀ v : Int, foldDigits ds (wrap64 v) = wrap64 (plainDigits ds v) := by
+  induction ds with
+  | nil => intro v; rfl
+  | cons b ds ih =>
+    intro v
+    simp only [foldDigits, plainDigits, List.foldl_cons] at ih ⊢
+    rw [wrap64_step]
+    exact ih _
+
+/-- the digit loop on digits followed by CR LF -/
+theorem digits_exact (ds rest : Bytes) (t : Tail) (h : ∀ b ∈ ds, b ≠ CR) : ∀ v : Int,
+    digits (ds ++ CR :: LF :: rest) v t = .ok (foldDigits ds v, rest) := by
+  induction ds with
+  | nil => intro v; simp [digits, foldDigits]
+  | cons b ds ih =>
+    intro v
+    have hb : b ≠ CR := h b (by simp)
+    have hs : ∀ x ∈ ds, x ≠ CR := fun x hx => h x (by simp [hx])
+    have ih' := ih hs (wrap64 (v * 10 + b.toNat - 48))
+    cases ds with
+    | nil =>
+      have hb' : ¬ b = 13 := hb
+      simp [digits, hb', foldDigits, CR, LF]
+    | cons c ds' =>
+      simp only [List.cons_append] at ih' ⊢
+      simp only [digits, hb, if_false, foldDigits, List.foldl_cons] at ih' ⊢
+      exact ih'
+
+def byteOfChar (c : Char) : UInt8 := c.toNat.toUInt8
+
+theorem asciiBytes_eq (s : String) : asciiBytes s = s.toList.map byteOfChar := rfl
+
+theorem byteOfChar_digit (c : Char) (h : c.isDigit = true) :
+    (byteOfChar c).toNat = c.toNat ∧ 48 ≤ c.toNat ∧ c.toNat ≤ 57 := by
+  have h' : 48 ≤ c.toNat ∧ c.toNat ≤ 57 := by
+    simp only [Char.isDigit, Bool.and_eq_true, decide_eq_true_eq] at h
+    have h1 : (48 : Nat) ≤ c.val.toNat := by simpa [UInt32.le_iff_toNat_le] using h.1
+    have h2 : c.val.toNat ≤ 57 := by simpa [UInt32.le_iff_toNat_le] using h.2
+    exact ⟨h1, h2⟩
+  refine ⟨?_, h'⟩
+  unfold byteOfChar
+  simp only [Nat.toUInt8_eq, UInt8.toNat_ofNat']
+  omega
+
+/-- folding the bytes of decimal digits is `Nat.ofDigitChars` -/
+theorem plainDigits_chars (cs : List Char) (h : ∀ c ∈ cs, c.isDigit = true) : ∀ acc : Nat,
+    plainDigits (cs.map byteOfChar) (acc : Int) = (Nat.ofDigitChars 10 cs acc : Nat) := by
+  induction cs with
+  | nil => intro acc; simp [plainDigits]
+  | cons c cs ih =>
+    intro acc
+    obtain ⟨h1, h2, h3⟩ := byteOfChar_digit c (h c (by simp))
+    have ih' := ih (fun x hx => h x (by simp [hx])) (10 * acc + (c.toNat - 48))
+    simp only [plainDigits, List.map_cons, List.foldl_cons, Nat.ofDigitChars_cons] at ih' ⊢
+    have : ((acc : Int) * 10 + ((byteOfChar c).toNat : Int) - 48) = ((10 * acc + (c.toNat - 48) : Nat) : Int) := by
+      rw [h1]; omega
+    rw [this]
+    simpa using ih'
+
+theorem digitBytes_ne_CR (cs : List Char) (h : ∀ c ∈ cs, c.isDigit = true) : ∀ b ∈ cs.map byteOfChar, b ≠ CR := by
+  intro b hb
+  simp only [List.mem_map] at hb
+  obtain ⟨c, hc, rfl⟩ := hb
+  obtain ⟨h1, h2, _⟩ := byteOfChar_digit c (h c hc)
+  intro hcr
+  have : (byteOfChar c).toNat = 13 := by rw [hcr]; rfl
+  omega
+
+theorem toDigits_isDigit (n : Nat) : ∀ c ∈ Nat.toDigits 10 n, c.isDigit = true :=
+  fun _ hc => Nat.isDigit_of_mem_toDigits (by decide) (by decide) hc
+
+/-- the decimal encoding of a natural number, as bytes -/
+def natBytes (n : Nat) : Bytes := (Nat.toDigits 10 n).map byteOfChar
+
+theorem dec_nonneg (n : Int) (h : 0 ≤ n) : dec n = natBytes n.toNat := by
+  simp [dec, asciiBytes_eq, Int.repr_eq_if, h, natBytes]
+
+theorem dec_neg (n : Int) (h : n < 0) : dec n = 45 :: natBytes (-n).toNat := by
+  have : ¬ (0 ≤ n) := by omega
+  simp [dec, asciiBytes_eq, Int.repr_eq_if, this, natBytes, byteOfChar]
+
+theorem natBytes_ne_nil (n : Nat) : natBytes n ≠ [] := by
+  simp [natBytes, Nat.toDigits_ne_nil]
+
+theorem natBytes_head_digit (n : Nat) : ∀ b ∈ natBytes n, b ≠ 45 := by
+  intro b hb
+  simp only [natBytes, List.mem_map] at hb
+  obtain ⟨c, hc, rfl⟩ := hb
+  obtain ⟨h1, h2, _⟩ := byteOfChar_digit c (toDigits_isDigit n c hc)
+  intro h45
+  have : (byteOfChar c).toNat = 45 := by rw [h45]; rfl
+  omega
+
+theorem digits_natBytes (n : Nat) (rest : Bytes) (t : Tail) :
+    digits (natBytes n ++ CR :: LF :: rest) 0 t = .ok (wrap64 n, rest) := by
+  have hx := digits_exact (natBytes n) rest t (digitBytes_ne_CR _ (toDigits_isDigit n)) 0
+  rw [hx]
+  have h0 : (0 : Int) = wrap64 0 := by unfold wrap64; omega
+  have := foldDigits_wrap (natBytes n) 0
+  rw [← h0] at this
+  rw [this]
+  have hp := plainDigits_chars (Nat.toDigits 10 n) (toDigits_isDigit n) 0
+  simp only [Nat.ofDigitChars_ten_toDigits] at hp
+  have : plainDigits (natBytes n) 0 = (n : Int) := by simpa [natBytes] using hp
+  rw [this]
+
+/-- **Integers round-trip**: for every int64 `n`, `readIntCrLf` on its decimal encoding followed by
+    CR LF returns `n` and resumes right after the terminator. -/
+theorem c07_readInt_dec (n : Int) (h1 : -9223372036854775808 ≤ n) (h2 : n ≤ 9223372036854775807)
+    (rest : Bytes) (tail : Tail) :
+    readInt { rem := dec n ++ crlf ++ rest, tail } = .ok (n, { rem := rest, tail }) := by
+  by_cases hn : 0 ≤ n
+  · rw [dec_nonneg n hn]
+    have hne := natBytes_ne_nil n.toNat
+    cases hd : natBytes n.toNat with
+    | nil => exact absurd hd hne
+    | cons b bs =>
+      have hb : b ≠ 45 := natBytes_head_digit n.toNat b (by rw [hd]; simp)
+      have := digits_natBytes n.toNat rest tail
+      rw [hd] at this
+      simp only [readInt, crlf, List.cons_append, List.append_assoc, List.nil_append, hb, decide_false,
+        Bool.false_eq_true, if_false] at this ⊢
+      simp only [CR, LF] at this
+      rw [this]
+      have hw : wrap64 (n.toNat : Int) = n := by rw [wrap64_id] <;> omega
+      rw [hw]
+  · have hneg : n < 0 := by omega
+    rw [dec_neg n hneg]
+    have := digits_natBytes (-n).toNat rest tail
+    simp only [readInt, crlf, List.cons_append, List.append_assoc, List.nil_append, decide_true, if_true]
+    simp only [CR, LF] at this
+    rw [this]
+    have hw : wrap64 (-(wrap64 ((-n).toNat : Int))) = n := by
+      rw [wrap64_neg, wrap64_id] <;> omega
+    simp only [hw]
+
+/-! ### whole replies: `process` inverts the encoder -/
+
+mutual
+  /-- the value `process` must return for a reply -/
+  def valOf : Reply → RVal
+    | .simple s => .bytes s false
+    | .error m => match errorString m with
+      | .ok s => .str s
+      | .error _ => .str []
+    | .int n => .int n
+    | .bulk none => .bytes [] true
+    | .bulk (some b) => .bytes b false
+    | .array none => .arr [] true
+    | .array (some xs) => .arr (valsOf xs) false
+  def valsOf : List Reply → List RVal
+    | [] => []
+    | r :: rs => valOf r :: valsOf rs
+end
+
+def typeOf : Reply → RType
+  | .simple _ => .simple
+  | .error _ => .error
+  | .int _ => .integer
+  | .bulk _ => .bulk
+  | .array _ => .array
+
+mutual
+  /-- well-formed, lengths within int64, error lines the dissector accepts (a cluster
+      redirection must carry its slot and target) -/
+  def wfR : Reply → Bool
+    | .simple s => noCRLF s
+    | .error m => noCRLF m && !m.isEmpty && (match errorString m with | .ok _ => true | .error _ => false)
+    | .int n => -9223372036854775808 ≤ n && n ≤ 9223372036854775807
+    | .bulk none => true
+    | .bulk (some b) => decide (b.length ≤ 9223372036854775807)
+    | .array none => true
+    | .array (some xs) => decide (xs.length ≤ 9223372036854775807) && wfRs xs
+  def wfRs : List Reply → Bool
+    | [] => true
+    | r :: rs => wfR r && wfRs rs
+end
+
+mutual
+  /-- fuel `process` needs (one per nesting level and per element) -/
+  def need : Reply → Nat
+    | .array (some xs) => 1 + needs xs
+    | _ => 1
+  def needs : List Reply → Nat
+    | [] => 1
+    | r :: rs => 1 + max (need r) (needs rs)
+end
+
+theorem noCRLF_ne_CR (s : Bytes) (h : noCRLF s = true) : ∀ b ∈ s, b ≠ CR := by
+  intro b hb
+  simp only [noCRLF, List.all_eq_true, Bool.and_eq_true, bne_iff_ne, ne_eq] at h
+  exact (h b hb).1
+
+theorem next_cons (b : UInt8) (r : Bytes) (tail : Tail) :
+    next { rem := b :: r, tail } = .ok (b, { rem := r, tail }) := rfl
+
+theorem valsOf_length : ∀ xs : List Reply, (valsOf xs).length = xs.length
+  | [] => by simp [valsOf]
+  | _ :: rs => by simp [valsOf, valsOf_length rs]
+
+mutual
+  /-- **Replies round-trip**: for every well-formed reply - any nesting, any bytes in bulk
+      strings, any int64 - and whatever follows it on the stream, `process` returns the reply's
+      value and type and resumes right after its encoding. -/
+  theorem c07_process_enc : ∀ (r : Reply), wfR r = true → ∀ (fuel : Nat), need r ≤ fuel → ∀ (rest : Bytes) (tail : Tail),
+      process fuel { rem := encReply r ++ rest, tail } = .ok (valOf r, typeOf r, { rem := rest, tail })
+    | .simple s, hw, fuel, hf, rest, tail => by
+      cases fuel with
+      | zero => simp [need] at hf
+      | succ f =>
+        have hl := c07_line_exact s rest tail (noCRLF_ne_CR s (by simpa [wfR] using hw))
+        simp only [List.append_assoc, List.cons_append, List.nil_append] at hl
+        simp [process, encReply, crlf, next_cons, hl, valOf, typeOf, CR, LF] at hl ⊢
+    | .error m, hw, fuel, hf, rest, tail => by
+      cases fuel with
+      | zero => simp [need] at hf
+      | succ f =>
+        simp only [wfR, Bool.and_eq_true, Bool.not_eq_true'] at hw
+        obtain ⟨⟨hcr, hne⟩, hok⟩ := hw
+        have hl := c07_line_exact m rest tail (noCRLF_ne_CR m hcr)
+        simp only [List.append_assoc, List.cons_append, List.nil_append, CR, LF] at hl
+        have hne' : m ≠ [] := by intro h; simp [h] at hne
+        cases he : errorString m with
+        | error e => simp [he] at hok
+        | ok v =>
+          simp [process, encReply, crlf, next_cons, readLine, hl, hne', he, valOf, typeOf]
+    | .int n, hw, fuel, hf, rest, tail => by
+      cases fuel with
+      | zero => simp [need] at hf
+      | succ f =>
+        simp only [wfR, Bool.and_eq_true, decide_eq_true_eq] at hw
+        have hi := c07_readInt_dec n hw.1 hw.2 rest tail
+        simp only [List.append_assoc] at hi
+        simp [process, encReply, next_cons, hi, valOf, typeOf]
+    | .bulk none, hw, fuel, hf, rest, tail => by
+      cases fuel with
+      | zero => simp [need] at hf
+      | succ f =>
+        have hi := c07_readInt_dec (-1) (by omega) (by omega) rest tail
+        simp only [List.append_assoc] at hi
+        simp [process, encReply, next_cons, hi, valOf, typeOf]
+    | .bulk (some b), hw, fuel, hf, rest, tail => by
+      cases fuel with
+      | zero => simp [need] at hf
+      | succ f =>
+        simp only [wfR, decide_eq_true_eq] at hw
+        have hi := c07_readInt_dec (b.length : Int) (by omega) (by omega) (b ++ crlf ++ rest) tail
+        have hb := c07_bulk_binary_safe b rest tail
+        simp only [List.append_assoc, crlf, CR, LF, List.cons_append, List.nil_append] at hi hb
+        have hne : ¬ ((b.length : Int) = -1) := by omega
+        simp [process, encReply, encBulk, crlf, next_cons, hi, hne, hb, valOf, typeOf]
+    | .array none, hw, fuel, hf, rest, tail => by
+      cases fuel with
+      | zero => simp [need] at hf
+      | succ f =>
+        have hi := c07_readInt_dec (-1) (by omega) (by omega) rest tail
+        simp only [List.append_assoc] at hi
+        simp [process, encReply, next_cons, hi, valOf, typeOf]
+    | .array (some xs), hw, fuel, hf, rest, tail => by
+      cases fuel with
+      | zero => simp [need] at hf
+      | succ f =>
+        simp only [wfR, Bool.and_eq_true, decide_eq_true_eq] at hw
+        have hi := c07_readInt_dec (xs.length : Int) (by omega) (by omega) (encReplies xs ++ rest) tail
+        simp only [List.append_assoc] at hi
+        have hne : ¬ ((xs.length : Int) = -1) := by omega
+        have hf' : needs xs ≤ f := by simp only [need] at hf; omega
+        have he := c07_elems_enc xs hw.2 f hf' rest tail
+        simp [process, encReply, next_cons, hi, hne, he, valOf, typeOf]
+  theorem c07_elems_enc : ∀ (xs : List Reply), wfRs xs = true → ∀ (fuel : Nat), needs xs ≤ fuel → ∀ (rest : Bytes) (tail : Tail),
+      elems fuel xs.length { rem := encReplies xs ++ rest, tail } = .ok (valsOf xs, { rem := rest, tail })
+    | [], _, fuel, hf, rest, tail => by
+      cases fuel with
+      | zero => simp [needs] at hf
+      | succ f => simp [elems, encReplies, valsOf]
+    | r :: rs, hw, fuel, hf, rest, tail => by
+      cases fuel with
+      | zero => simp [needs] at hf
+      | succ f =>
+        simp only [wfRs, Bool.and_eq_true] at hw
+        simp only [needs] at hf
+        have h1 := c07_process_enc r hw.1 f (by omega) (encReplies rs ++ rest) tail
+        have h2 := c07_elems_enc rs hw.2 f (by omega) rest tail
+        simp only [List.length_cons, elems, encReplies, List.append_assoc, h1, h2, valsOf]
+end
+
+/-! ### a whole server half -/
+
+theorem encReply_pos : ∀ r : Reply, 1 ≤ (encReply r).length
+  | .simple _ | .error _ | .int _ | .bulk none | .array none | .array (some _) => by simp [encReply]
+  | .bulk (some _) => by simp [encReply, encBulk]
+
+mutual
+  theorem need_le : ∀ r : Reply, need r ≤ 2 * (encReply r).length
+    | .simple _ | .error _ | .int _ | .bulk none | .array none => by simp [need, encReply]; omega
+    | .bulk (some _) => by simp [need, encReply, encBulk]; omega
+    | .array (some xs) => by
+      have := needs_le xs
+      simp only [need, encReply, List.length_append, List.length_cons, List.length_nil, crlf]
+      omega
+  theorem needs_le : ∀ xs : List Reply, needs xs ≤ 2 * (encReplies xs).length + 1
+    | [] => by simp [needs, encReplies]
+    | r :: rs => by
+      have h1 := need_le r
+      have h2 := needs_le rs
+      have h3 := encReply_pos r
+      simp only [needs, encReplies, List.length_append]
+      omega
+end
+
+/-- the packet the dissector hands to the matcher for a reply -/
+def packetOf (r : Reply) : Packet :=
+  match shape (valOf r) (typeOf r) with
+  | .ok p => p
+  | .error _ => default
+
+/-- the reply is of a shape `RedisProtocol.Read` accepts (known findings: a simple string outside
+    the keyword table and most non-empty arrays are not) -/
+def reportable (r : Reply) : Bool :=
+  match shape (valOf r) (typeOf r) with
+  | .ok _ => true
+  | .error _ => false
+
+def encAll (rs : List Reply) : Bytes := (rs.map encReply).flatten
+
+theorem read_enc (r : Reply) (hw : wfR r = true) (hr : reportable r = true) (rest : Bytes) (tail : Tail)
+    (fuel : Nat) (hf : need r ≤ fuel) :
+    read fuel { rem := encReply r ++ rest, tail } = .ok (packetOf r, { rem := rest, tail }) := by
+  unfold Redis.read
+  rw [c07_process_enc r hw fuel hf rest tail]
+  unfold reportable at hr
+  unfold packetOf
+  cases hs : shape (valOf r) (typeOf r) with
+  | error e => simp [hs] at hr
+  | ok p => simp [hs]
+
+/-- **Every reply of a half is reported, in order, none stops the ones after it**: for every
+    list of well-formed reportable replies - pipelined in one stream, of any sizes - the
+    dissection of their concatenated encodings hands the matcher exactly one packet per reply,
+    in order, and ends with the stream's own end. -/
+theorem c07_server_half : ∀ (rs : List Reply), (∀ r ∈ rs, wfR r = true ∧ reportable r = true) →
+    ∀ (tail : Tail) (fuel : Nat), rs.length < fuel →
+    dissect fuel { rem := encAll rs, tail } = (rs.map packetOf, ({ rem := [], tail } : St).endErr)
+  | [], _, tail, fuel, hf => by
+    cases fuel with
+    | zero => omega
+    | succ f => simp [dissect, encAll, Redis.read, process, next]
+  | r :: rs, h, tail, fuel, hf => by
+    cases fuel with
+    | zero => omega
+    | succ f =>
+      have hr := h r (by simp)
+      have hrest : ∀ x ∈ rs, wfR x = true ∧ reportable x = true := fun x hx => h x (by simp [hx])
+      have hlen : need r ≤ 2 * (encReply r ++ encAll rs).length + 4 := by
+        have := need_le r
+        simp only [List.length_append]; omega
+      have hread := read_enc r hr.1 hr.2 (encAll rs) tail _ hlen
+      have ih := c07_server_half rs hrest tail f (by simp only [List.length_cons] at hf; omega)
+      simp only [dissect, encAll, List.map_cons, List.flatten_cons] at ih ⊢
+      simp only [encAll] at hread
+      rw [hread]
+      simp only [ih]
+
+/-! ### what is reported for a reply -/
+
+theorem upper_eq (s : Bytes) : upperAscii s = upper s := rfl
+
+theorem inTable_eq (tbl : List String) (s : Bytes) : Redis.inTable tbl s = Spec.inTable tbl s := rfl
+
+/-- **Replies are reported as sent** (every kind outside the recorded findings): a simple string
+    of the keyword table, every error line (any bytes but CR / LF; reported with its class
+    prefix), every integer, every non-null bulk string with whatever bytes, null and empty arrays. -/
+theorem isInfix_mid (a m b : Bytes) : isInfix m (a ++ m ++ b) = true := by
+  unfold isInfix
+  simp only [List.any_eq_true, List.mem_range, beq_iff_eq]
+  refine ⟨a.length, by simp only [List.length_append]; omega, ?_⟩
+  simp [List.append_assoc]
+
+theorem isInfix_mid' (a m b : Bytes) : isInfix m (a ++ (m ++ b)) = true := by
+  have := isInfix_mid a m b
+  simpa [List.append_assoc] using this
+
+theorem errorString_infix (m s : Bytes) (h : errorString m = .ok s) : isInfix m s = true := by
+  unfold errorString at h
+  simp only at h
+  repeat' (split at h)
+  all_goals first
+    | (injection h with h; subst h; simp only [List.append_assoc]; exact isInfix_mid' _ _ _)
+    | (injection h with h; subst h; simpa using isInfix_mid' _ m [])
+    | cases h
+
+theorem c07_reply_reported (r : Reply) (hw : wfR r = true) (hr : reportable r = true) (hk : tagsOfReply r = []) :
+    respOk r (packetOf r) = true := by
+  cases r with
+  | simple s =>
+    have hin : Spec.inTable Gen.Redis.keywords (upper s) = true := by
+      by_cases h : Spec.inTable Gen.Redis.keywords (upper s) = true
+      · exact h
+      · simp [tagsOfReply, h] at hk
+    simp [respOk, packetOf, valOf, typeOf, shape, upper_eq, inTable_eq, hin]
+  | error m =>
+    simp only [wfR, Bool.and_eq_true] at hw
+    cases he : errorString m with
+    | error e => simp [he] at hw
+    | ok v =>
+      have := errorString_infix m v he
+      simp [respOk, packetOf, valOf, typeOf, shape, he, this]
+  | int n => simp [respOk, packetOf, valOf, typeOf, shape, intBytes, dec]
+  | bulk o =>
+    cases o with
+    | none => simp [tagsOfReply] at hk
+    | some b => simp [respOk, packetOf, valOf, typeOf, shape]
+  | array o =>
+    cases o with
+    | none => simp [respOk, packetOf, valOf, typeOf, shape]
+    | some xs =>
+      cases xs with
+      | nil => simp [respOk, packetOf, valOf, valsOf, typeOf, shape]
+      | cons x xs => simp [tagsOfReply] at hk
+
+/-! ### commands -/
+
+/-- a command is the array of its name and arguments as bulk strings -/
+def cmdReply (c : Command) : Reply := .array (some (.bulk (some c.name) :: c.args.map fun a => .bulk (some a)))
+
+theorem encReplies_bulks (args : List Bytes) :
+    encReplies (args.map fun a => Reply.bulk (some a)) = (args.map encBulk).flatten := by
+  induction args with
+  | nil => simp [encReplies]
+  | cons a as ih => simp [encReplies, encReply, ih]
+
+theorem encCommand_eq (c : Command) : encCommand c = encReply (cmdReply c) := by
+  simp [encCommand, cmdReply, encReply, encReplies, encReplies_bulks]
+
+theorem valsOf_bulks (args : List Bytes) :
+    valsOf (args.map fun a => Reply.bulk (some a)) = args.map fun a => RVal.bytes a false := by
+  induction args with
+  | nil => simp [valsOf]
+  | cons a as ih => simp [valsOf, valOf, ih]
+
+theorem wfRs_bulks (args : List Bytes) (h : ∀ a ∈ args, a.length ≤ 9223372036854775807) :
+    wfRs (args.map fun a => Reply.bulk (some a)) = true := by
+  induction args with
+  | nil => simp [wfRs]
+  | cons a as ih =>
+    simp only [List.map_cons, wfRs, wfR, Bool.and_eq_true, decide_eq_true_eq]
+    exact ⟨h a (by simp), ih (fun x hx => h x (by simp [hx]))⟩
+
+theorem joinArgs_cons (a : Bytes) (more : List Bytes) :
+    a ++ (more.map fun m => asciiBytes ", " ++ m).flatten = joinArgs (a :: more) := by
+  induction more generalizing a with
+  | nil => simp [joinArgs]
+  | cons m ms ih =>
+    have := ih m
+    simp only [List.map_cons, List.flatten_cons, joinArgs] at this ⊢
+    rw [← this]
+    simp [asciiBytes, List.append_assoc]
+
+theorem filterMap_bytes (f : RVal → Option Bytes) (hf : ∀ a, f (.bytes a false) = some a) (l : List Bytes) :
+    List.filterMap (f ∘ fun a => RVal.bytes a false) l = l := by
+  induction l with
+  | nil => rfl
+  | cons a as ih => simp [List.filterMap_cons, hf, ih]
+
+/-- **Commands are reported as sent**: for every command whose (upper-cased) name is in the
+    command table, with any number of arguments holding any bytes, the packet carries the name,
+    the key and the further arguments exactly. -/
+theorem c07_command_reported (c : Command) (hin : Redis.inTable Gen.Redis.commands (upperAscii c.name) = true) :
+    reportable (cmdReply c) = true ∧ reqOk c (packetOf (cmdReply c)) = true := by
+  have hv : valOf (cmdReply c) = .arr (.bytes c.name false :: c.args.map fun a => RVal.bytes a false) false := by
+    simp [cmdReply, valOf, valsOf, valsOf_bulks]
+  have hin' : Redis.inTable Gen.Redis.commands (upper c.name) = true := hin
+  unfold reportable packetOf
+  rw [hv]
+  rcases hargs : c.args with _ | ⟨k, _ | ⟨v, _ | ⟨w, more⟩⟩⟩
+  · simp [shape, typeOf, cmdReply, hin', reqOk, hargs, upper_eq]
+  · simp [shape, typeOf, cmdReply, hin', reqOk, hargs, upper_eq]
+  · simp [shape, typeOf, cmdReply, hin', reqOk, hargs, upper_eq]
+  · have hj := joinArgs_cons v (w :: more)
+    simp only [List.map_cons, List.flatten_cons, asciiBytes] at hj
+    simp [shape, typeOf, cmdReply, hin', reqOk, hargs, upper_eq]
+    rw [filterMap_bytes _ (fun a => rfl)]
+    have hj' : v ++ 44 :: 32 :: (w ++ (List.map (fun m => 44 :: 32 :: m) more).flatten) = joinArgs (v :: w :: more) := by
+      simpa [List.append_assoc] using hj
+    rw [← hj']
+    have e1 : asciiBytes "[" = [91] := rfl
+    have e2 : asciiBytes ", " = [44, 32] := rfl
+    have e3 : asciiBytes "]" = [93] := rfl
+    simp [List.append_assoc, e1, e2, e3]
+
+theorem wfR_cmdReply (c : Command) (hn : c.name.length ≤ 9223372036854775807)
+    (ha : ∀ a ∈ c.args, a.length ≤ 9223372036854775807) (hl : c.args.length < 9223372036854775807) :
+    wfR (cmdReply c) = true := by
+  simp only [cmdReply, wfR, wfRs, Bool.and_eq_true, decide_eq_true_eq, List.length_cons, List.length_map]
+  exact ⟨by omega, hn, wfRs_bulks c.args ha⟩
+
+/-- **A whole client half**: every pipelined sequence of commands of the table - any arguments,
+    any bytes - yields one packet per command, in order, each carrying name, key and arguments
+    as sent (`c07_command_reported`). -/
+theorem c07_client_half (cs : List Command)
+    (h : ∀ c ∈ cs, Redis.inTable Gen.Redis.commands (upperAscii c.name) = true ∧ c.name.length ≤ 9223372036854775807 ∧
+      (∀ a ∈ c.args, a.length ≤ 9223372036854775807) ∧ c.args.length < 9223372036854775807)
+    (tail : Tail) (fuel : Nat) (hf : cs.length < fuel) :
+    dissect fuel { rem := (cs.map encCommand).flatten, tail } =
+      (cs.map fun c => packetOf (cmdReply c), ({ rem := [], tail } : St).endErr) := by
+  have he : cs.map encCommand = (cs.map cmdReply).map encReply := by
+    simp [List.map_map, Function.comp_def, encCommand_eq]
+  have := c07_server_half (cs.map cmdReply) (by
+      intro r hr
+      simp only [List.mem_map] at hr
+      obtain ⟨c, hc, rfl⟩ := hr
+      obtain ⟨h1, h2, h3, h4⟩ := h c hc
+      exact ⟨wfR_cmdReply c h2 h3 h4, (c07_command_reported c h1).1⟩) tail fuel (by simpa using hf)
+  simp only [encAll, List.map_map] at this
+  rw [he, List.map_map]
+  exact this
+
+/-- Non-vacuity: SET with a binary value, answered +OK; GET answered by a bulk string holding CR LF. -/
+example : wfR (cmdReply { name := [83, 69, 84], args := [[107], [0, 13, 10, 255]] }) = true ∧
+    wfR (.simple [79, 75]) = true ∧ wfR (.bulk (some [13, 10])) = true ∧ wfR (.array (some [.int (-5), .bulk none])) = true := by
+  decide
 
 end KsVerif.Proofs.C07
